@@ -5,6 +5,7 @@ Driver commands for the model of src/cm.rs (C07 / C17):
   cmshortest <hex> <ch>        `shortestUnusedSequence`
   cmcode <hex>                 the code span `format_code` writes without wrapping (hex)
   cmfence <info hex> <lit hex> `<fence char> <fence length>`
+  cmoutc <prev> <bc> <c> <esc> <nextc|-1>   `outcBytes` (hex);  cmtesc <kind> <c>   `tableEscape`
 -/
 import Comrak.Drv.Opts
 import Comrak.Cm
@@ -48,6 +49,26 @@ def handle : Handler := fun cmd args =>
         let info ← hexArg i
         let lit ← hexArg l
         pure (toString (fenceChar info).toNat ++ " " ++ toString (fenceLen info lit))
+      | _ => throw "bad-args"
+  | "cmoutc" => some do
+      -- cmoutc <prev hex> <begin_content 0/1> <c> <esc 1 normal|2 url|3 title|0 literal> <nextc|-1>
+      match args with
+      | [p, bc, c, e, n] =>
+        let prev ← hexArg p
+        let some c := c.toNat? | throw "bad-char"
+        let some e := e.toNat? | throw "bad-esc"
+        let esc : Esc := if e == 1 then .normal else if e == 2 then .url else if e == 3 then .title else .literal
+        let fd := match prev.getLast? with | some b => isAsciiDigit b | none => false
+        let nx : UInt8 := match n.toNat? with | some k => UInt8.ofNat k | none => 0
+        pure (outHex (outcBytes (UInt8.ofNat c) esc (bc == "1") fd nx))
+      | _ => throw "bad-args"
+  | "cmtesc" => some do
+      match args with
+      | [k, c] =>
+        let some c := c.toNat? | throw "bad-char"
+        let kind : Kind := if k == "table" then .table else if k == "table_row" then .tableRow
+          else if k == "table_cell" then .tableCell else if k == "text" then .text else .code
+        pure (outBool (tableEscape kind (UInt8.ofNat c)))
       | _ => throw "bad-args"
   | _ => none
 
